@@ -14,9 +14,9 @@ import regen_c20
 PID = "C06"
 HERE = os.path.dirname(os.path.abspath(__file__))
 WORKDIR = os.path.join(vlib.WORK, PID, "run")       # scratch (removed at exit); proposed_fix_*.diff live one level up
-THEOREMS = ["layouts_match_source", "iae_roundtrip", "header_roundtrip", "offsets_disjoint", "preset_offsets_disjoint",
+THEOREMS = ["layouts_match_source", "iae_roundtrip", "header_roundtrip", "offsets_disjoint", "offsets_aligned", "preset_offsets_disjoint",
             "entry_points_at_image", "entry_hash", "iv_is_plain_hash_and_decrypts", "signed_range", "srk_hash_of_exported_table",
-            "verify_flags_each_field", "tamper_reserved_refuted", "reexport_normalises_header"]
+            "verify_flags_each_field", "tamper_signed_range_reported", "tamper_header_reported", "reexport_normalises_header", "families_wf"]
 TM_TAG = {"serial_downloader": 0, "nand_4k": 2, "nand_2k": 3, "standard": 4}
 HASH = {"sha256": (0, hashlib.sha256, 32), "sha384": (1, hashlib.sha384, 48), "sha512": (2, hashlib.sha512, 64)}
 HASH_BY_TAG = {v[0]: v for v in HASH.values()}
@@ -480,7 +480,7 @@ def gen_cases(tier, rng, fams, extract, keys):
     S = {k: [] for k in ("valid configurations, automatic offsets", "explicit image offsets", "invalid configurations must be refused",
                          "signed containers, single-bit corruption", "container version 2 (oracles only)")}
     # A: valid, automatic offsets -- every (v1 family row class) x target memory at least once, all key types
-    n_a = 90 if thorough else 26
+    n_a = 220 if thorough else 26
     ks_cycle = [None] + KEYSETS
     for n in range(n_a):
         fx = v1_fams[(n * 5) % len(v1_fams)] if n >= len(v1_fams) or thorough else v1_fams[n % len(v1_fams)]
@@ -510,7 +510,7 @@ def gen_cases(tier, rng, fams, extract, keys):
             case["must"] = "export"
         S["valid configurations, automatic offsets"].append(case)
     # B: explicit offsets
-    n_b = 40 if thorough else 8
+    n_b = 80 if thorough else 8
     for n in range(n_b):
         fx = rng.choice(v1_fams)
         fi = extract["families"][fx]
@@ -541,7 +541,7 @@ def gen_cases(tier, rng, fams, extract, keys):
         S["explicit image offsets"].append(case)
     # C: invalid configurations
     inv = []
-    for n in range(24 if thorough else 8):
+    for n in range(48 if thorough else 8):
         fx = rng.choice(v1_fams)
         fi = extract["families"][fx]
         tm = rng.choice(tms)
@@ -570,18 +570,19 @@ def gen_cases(tier, rng, fams, extract, keys):
             c["keys"][2] = ["ecc384", 2]
             case = mk(fx, tm, [c], "mixed-srk-table", "reject", v2=False)
         inv.append(case)
-    # revoked selected key: the exported image must not be one that the verifier then rejects
+    # revoked selected key: must be refused at export (repair 8235421 of former finding C06-F2; if it is exported again the
+    # oracle reports both the export and the verifier error on the parsed image)
     for used, mask in ((1, 2), (0, 15)) if not thorough else ((0, 1), (1, 2), (2, 4), (3, 8), (0, 15), (3, 9)):
         fx = rng.choice(v1_fams)
         c = container(extract["families"][fx], 1, signed="ecc256")
         c.update({"used": used, "revoke": mask, "sign": ["ecc256", used]})
-        inv.append(mk(fx, "standard", [c], "selected-srk-revoked", None, v2=False))
+        inv.append(mk(fx, "standard", [c], "selected-srk-revoked", "reject", v2=False))
     S["invalid configurations must be refused"] = inv
     # D: tamper
-    for n in range(6 if thorough else 3):
+    for n in range(10 if thorough else 3):
         fx = rng.choice(v1_fams)
         fi = extract["families"][fx]
-        ks = ["ecc256", "rsa2048", "ecc521", "ecc384", "rsa3072", "ecc256"][n]
+        ks = ["ecc256", "rsa2048", "ecc521", "ecc384", "rsa3072", "ecc256", "rsa4096", "ecc384", "ecc521", "rsa2048"][n]
         c = container(fi, 2, signed=ks)
         c["flag_ca"] = False
         for im in c["images"]:
@@ -599,13 +600,36 @@ def gen_cases(tier, rng, fams, extract, keys):
         flips += [[0x2000 + rng.randrange(512), rng.randrange(8)] for _ in range(3)]
         case["flips"] = flips
         S["signed containers, single-bit corruption"].append(case)
-    # E: container version 2 -- implementation + oracles only (the Coq model covers the version 1 signature block)
-    for n in range(8 if thorough else 4):
+    # E: container version 2 -- implementation + oracles only (the Coq model covers the version 1 signature block); every key type,
+    # RSA included (the SRKRecordV2 exponent-length check is repaired), encrypted images, several containers
+    v2_keys = ["ecc256", "rsa2048", None, "ecc384", "rsa4096", "ecc521", "rsa3072"]
+    for n in range(21 if thorough else 7):
         fx = v2_fams[n % len(v2_fams)]
         fi = extract["families"][fx]
-        c = container(fi, 1 + n % 2, signed=[None, "ecc384", "ecc256", "rsa2048"][n % 4] if n else "ecc256")
-        ks = c["keys"][0][0] if c["keys"] else "unsigned"
-        S["container version 2 (oracles only)"].append(mk(fx, tms[n % 4], [c], f"v2-{ks}", "export", v2=True))
+        ks = v2_keys[n % len(v2_keys)]
+        conts = [container(fi, 1 + n % 3, signed=ks)]
+        if n % 3 == 2:
+            conts.append(container(fi, 1, signed=v2_keys[(n + 3) % len(v2_keys)]))
+        if ks and n % 4 == 1:
+            c = conts[0]
+            c["blob"] = {"bits": 256, "dek": bytes(rng.randrange(256) for _ in range(32)).hex(), "kid": 3}
+            c["images"][0]["enc"] = True
+            c["images"][0]["size_align"] = 0
+        S["container version 2 (oracles only)"].append(mk(fx, tms[n % 4], conts, f"v2-{ks or 'unsigned'}", "export", v2=True))
+    # single-bit corruption of signed version 2 containers: header, image array, signature block header, SRK table array, SRK data
+    for n in range(4 if thorough else 2):
+        fx = v2_fams[n % len(v2_fams)]
+        fi = extract["families"][fx]
+        ks = ["rsa2048", "ecc256", "ecc521", "rsa3072"][n]
+        c = container(fi, 1, signed=ks)
+        c["images"][0]["data"][2] = 512
+        c["images"][0]["gap"], c["images"][0]["size_align"] = 0, 0
+        case = mk(fx, "standard", [c], "tamper-v2", "export", v2=True)
+        signed_end = 16 + 128 + 16 + 8 + 4 + 4 * 76 + 8 + keys.param_len(ks)     # header, entry, block header, array, table, SRK data
+        pos = list(range(0, 16)) + list(range(16, 16 + 32)) + list(range(144, 144 + 16 + 8 + 4 + 12))
+        pos += [rng.randrange(144 + 40, signed_end) for _ in range(60 if thorough else 14)] + list(range(signed_end - 6, signed_end))
+        case["flips"] = [[q, rng.randrange(8)] for q in pos] + [[consts["start"][True][False] + rng.randrange(512), rng.randrange(8)]]
+        S["signed containers, single-bit corruption"].append(case)
     return S, consts
 
 
@@ -721,8 +745,6 @@ def run(tier):
                 nmodel += 1
                 me, mr = mv[1][0], mv[1][1]
                 ok = same_export(r, me)
-                if not ok and c["why"] == "selected-srk-revoked" and r["status"] == "e1" and r.get("stage") == "export" and me[0] == "l":
-                    ok = True      # known finding C06-F2: the model is faithful to the defect; a repaired tree refuses this configuration
                 what = f"export: impl {r['status']}/{r.get('stage')} model {'bytes' if me[0] == 'l' else me}"
                 fn = 1
                 if ok and r.get("container_verify") is not None:
